@@ -310,10 +310,19 @@ func GenSeqFile(t *rapid.T, format string, maxRecs int, allowLong bool) SeqFile 
 	}
 	pool := LetterPool(f.Alpha)
 	n := rapid.IntRange(0, maxRecs).Draw(t, "nrecs")
+	// many short reads: dozens of records of 40..200 letters, several thousand letters in all (a
+	// reader that recycles the storage of earlier records has to hand some of it out again)
+	manyShort := allowLong && rapid.IntRange(0, 19).Draw(t, "many-short-reads") == 7
+	if manyShort {
+		n = rapid.IntRange(30, 50).Draw(t, "nrecs-many")
+	}
 	longBudget := 1
 	if allowLong && maxRecs > 10 {
 		longBudget = 3
 	}
+	// one case in sixty carries a sequence of more than 64 KiB (beyond the token limit of a
+	// bufio.Scanner and of every other fixed-size line buffer), for FASTA usually on one line
+	giant := allowLong && rapid.IntRange(0, 59).Draw(t, "giant-sequence") == 23
 	for i := 0; i < n; i++ {
 		var r SeqRec
 		r.Name = genToken(t, "name", 0, 12)
@@ -328,6 +337,15 @@ func GenSeqFile(t *rapid.T, format string, maxRecs int, allowLong bool) SeqFile 
 			longBudget--
 		}
 		r.Len = GenSeqLen(t, f.Width, allowLong && longBudget > 0)
+		if manyShort {
+			r.Len = rapid.IntRange(100, 250).Draw(t, "short-read-len")
+		}
+		if giant && i == n/2 {
+			r.Len = rapid.SampledFrom([]int{65535, 65536, 65537, 70000, 131072, 140001}).Draw(t, "giant-len")
+			if format == "fasta" && rapid.IntRange(0, 2).Draw(t, "giant-one-line") > 0 {
+				f.Width = r.Len + rapid.IntRange(0, 1).Draw(t, "giant-width-slack")
+			}
+		}
 		if r.Len > 1000 {
 			longBudget--
 		}
@@ -690,7 +708,7 @@ func GenLayout(t *rapid.T, format string, allowLong bool) Layout {
 		for i := 0; i < n; i++ {
 			gens := []*rapid.Generator[int]{rapid.IntRange(1, 100), rapid.SampledFrom([]int{1, 60, 4095, 4096, 4097})}
 			if allowLong {
-				gens = append(gens, rapid.SampledFrom([]int{8192, 20000}))
+				gens = append(gens, rapid.SampledFrom([]int{8192, 20000, 200000}))
 			}
 			l.Wrap = append(l.Wrap, rapid.OneOf(gens...).Draw(t, "wrap"))
 		}
